@@ -54,11 +54,12 @@ VARIABLES members,   \* input: the seat list
           req,       \* input: requested number of seats (retryParticipantsCount)
           mode,      \* input: which function
           retry,     \* the retry number of the current round
+          classes,   \* derived input: the eligible-for-exclusion lists the function builds
           order,     \* hidden: order[r+1] = shuffle outcome fixed for retry r
           evald,     \* nodes that evaluated the current round
           res        \* node -> last returned value
 
-vars == <<members, req, mode, retry, order, evald, res>>
+vars == <<members, req, mode, classes, retry, order, evald, res>>
 
 Ops == 1..MaxOps
 
@@ -146,10 +147,16 @@ Ok(r, seats)      == [kind |-> "ok", seats |-> seats, more |-> 0, retry |-> r]
 TooManyErr(r)     == [kind |-> "toomany", seats |-> <<>>, more |-> 0, retry |-> r]
 ExhaustedErr(r, k) == [kind |-> "exhausted", seats |-> <<>>, more |-> k, retry |-> r]
 
+\* what the prologue of the key generation function computes from its
+\* arguments: the `operators` slice, pairIndexes, tripletIndexes (as sets;
+\* their order is the hidden shuffle)
+Classes(ms, q) == [s |-> Singles(ms, q), p |-> Pairs(ms, q), t |-> TripletsUsed(ms, q)]
+
 Init ==
     /\ members \in SeatLists
     /\ req \in 0..(Len(members) + 1)
     /\ mode \in Modes
+    /\ classes = Classes(members, req)
     /\ retry = 0
     /\ order = <<>>
     /\ evald = {}
@@ -158,14 +165,14 @@ Init ==
 ---------------------------------------------------------------------------
 (* Actions.  One per return path of the two functions.                     *)
 
-S == Cardinality(Singles(members, req))
-P == Cardinality(Pairs(members, req))
-T == Cardinality(TripletsUsed(members, req))
+S == Cardinality(classes.s)
+P == Cardinality(classes.p)
+T == Cardinality(classes.t)
 
 Return(n, v) ==
     /\ res' = [res EXCEPT ![n] = v]
     /\ evald' = evald \cup {n}
-    /\ UNCHANGED <<members, req, mode, retry>>
+    /\ UNCHANGED <<members, req, mode, classes, retry>>
 
 \* the shuffle outcome of this retry: fixed by the first evaluator, drawn
 \* from the not yet used elements of the class (one permutation per class)
@@ -186,24 +193,24 @@ TooMany(n) ==
 ExcludeSingle(n) ==
     /\ mode = "keygen" /\ n \notin evald /\ req <= Len(members)
     /\ retry < S
-    /\ \E X \in Singles(members, req) :
-          /\ Draw(Singles(members, req), X)
+    /\ \E X \in classes.s :
+          /\ Draw(classes.s, X)
           /\ Return(n, Ok(retry, Without(members, X)))
 
 \* -> excludeOperatorPairs (index = retry - #singles)
 ExcludePair(n) ==
     /\ mode = "keygen" /\ n \notin evald /\ req <= Len(members)
     /\ retry >= S /\ retry < S + P
-    /\ \E X \in Pairs(members, req) :
-          /\ Draw(Pairs(members, req), X)
+    /\ \E X \in classes.p :
+          /\ Draw(classes.p, X)
           /\ Return(n, Ok(retry, Without(members, X)))
 
 \* -> excludeOperatorTriplets (index = retry - #singles - #pairs)
 ExcludeTriplet(n) ==
     /\ mode = "keygen" /\ n \notin evald /\ req <= Len(members)
     /\ retry >= S + P /\ retry < S + P + T
-    /\ \E X \in TripletsUsed(members, req) :
-          /\ Draw(TripletsUsed(members, req), X)
+    /\ \E X \in classes.t :
+          /\ Draw(classes.t, X)
           /\ Return(n, Ok(retry, Without(members, X)))
 
 \* "the retry count was too large to handle ... still needed [k] more retries"
@@ -224,7 +231,7 @@ SelectForSigning(n) ==
 
 RetryBound ==
     IF mode = "signing" THEN SigningRetries
-    ELSE Cardinality(AllExclusions(members, req)) + 1
+    ELSE S + P + T + 1
 
 \* every node evaluated this retry; the attempt failed; next retry
 NextRetry ==
@@ -232,7 +239,7 @@ NextRetry ==
     /\ retry < RetryBound
     /\ retry' = retry + 1
     /\ evald' = {}
-    /\ UNCHANGED <<members, req, mode, order, res>>
+    /\ UNCHANGED <<members, req, mode, classes, order, res>>
 
 \* what a fixed shuffle outcome yields for an earlier retry number r
 Replayed(r) ==
@@ -247,7 +254,7 @@ Reevaluate(n, r) ==
     /\ Reeval
     /\ r < retry \/ (r = retry /\ evald = Nodes)
     /\ res' = [res EXCEPT ![n] = Replayed(r)]
-    /\ UNCHANGED <<members, req, mode, retry, order, evald>>
+    /\ UNCHANGED <<members, req, mode, classes, retry, order, evald>>
 
 DoTooMany          == \E n \in Nodes : TooMany(n)
 DoExcludeSingle    == \E n \in Nodes : ExcludeSingle(n)
@@ -298,7 +305,8 @@ DistinctExclusions ==
 
 \* ... only eligible ones are used (an ineligible combination is never used) ...
 OnlyEligible ==
-    mode = "keygen" => \A i \in DOMAIN order : order[i] \in AllExclusions(members, req)
+    (mode = "keygen" /\ order # <<>>) =>
+        LET all == AllExclusions(members, req) IN \A i \in DOMAIN order : order[i] \in all
 
 \* ... singles before pairs before triplets ...
 ClassOrder ==
@@ -307,12 +315,11 @@ ClassOrder ==
 \* ... and none is skipped: the error comes exactly when every eligible
 \* single, pair and triplet has been used, and reports the overshoot
 ExhaustedExact ==
-    mode = "keygen" =>
+    (mode = "keygen" /\ \E n \in Nodes : res[n].kind \in {"ok", "exhausted"}) =>
+        LET R == Card(AllExclusions(members, req)) IN
         \A n \in Nodes :
-            /\ res[n].kind = "exhausted" =>
-                  /\ res[n].retry >= Card(AllExclusions(members, req))
-                  /\ res[n].more = res[n].retry - Card(AllExclusions(members, req))
-            /\ res[n].kind = "ok" => res[n].retry < Card(AllExclusions(members, req))
+            /\ res[n].kind = "exhausted" => (res[n].retry >= R /\ res[n].more = res[n].retry - R)
+            /\ res[n].kind = "ok" => res[n].retry < R
 
 \* key generation keeps the group as large as possible: at most three
 \* operators are dropped, never none
@@ -335,16 +342,27 @@ SigningNeverExhausted == mode = "signing" => \A n \in Nodes : res[n].kind # "exh
 
 \* forming pairs/triplets of eligible singles only (as the code does) finds
 \* every eligible pair/triplet of operators
+AtInput == retry = 0 /\ evald = {} /\ order = <<>>
+
 AmongSingles ==
-    \A X \in SUBSET OpsOf(members) :
-        (Card(X) \in 2..3 /\ Eligible(members, req, X)) => X \subseteq SingleOps(members, req)
+    AtInput =>
+        \A X \in SUBSET OpsOf(members) :
+            (Card(X) \in 2..3 /\ Eligible(members, req, X)) => X \subseteq SingleOps(members, req)
 
 \* the characterisation of signing outcomes equals the literal loop over
 \* every shuffle
 SigningLoopLemma ==
-    (mode = "signing" /\ req <= Len(members) /\ retry = 0 /\ evald = {}) =>
+    (mode = "signing" /\ req <= Len(members) /\ AtInput) =>
         SigningOutcomes(members, req) =
             {AcceptedByLoop(members, req, p) : p \in Perms(OpsOf(members))}
+
+\* For exhaustive checking without re-evaluation the future and every
+\* invariant depend on `order` only through its range, length and last
+\* element (see ClassOrder / DistinctExclusions: the first violating state
+\* differs in one of them from every non-violating one).
+OrderView ==
+    <<members, req, mode, classes, retry, Range(order), Len(order),
+      IF order = <<>> THEN {} ELSE order[Len(order)], evald, res>>
 
 TypeOK ==
     /\ members \in Seq(Ops) /\ req \in Nat /\ mode \in {"keygen", "signing"}
